@@ -2,7 +2,7 @@
 Layer B → Layer A for the full multi-object vocabulary (track `wabs`), part 5: the per-handle ledger
 (`LW`: everything appended to each handle since its last `clear`, placeholders filled in place; moved by
 `take`, copied by `clone`), immutability of known bytes at the level of the reference (`pw_byte_persist`),
-and executable checkers for the two side conditions of the step theorem (`World.okRunB`).
+and an executable checker for the side condition of the step theorem (`World.okRunB`).
 -/
 import Woodpile.Proofs.IovecWRun
 
@@ -155,34 +155,7 @@ theorem pw_run_byte_persist (i : Nat) : ∀ (ops : List WOp) (s : PW) (rs : List
       exact ih _ _ (Nat.lt_of_lt_of_le hi (pw_step_n s op r)) (fun o ho => hnr o (by simp [ho])) hok.2 j b
         (pw_byte_persist s op r i hi (hnr op (by simp)) hok.1 j b h)
 
-/-! ### Executable checkers for the side conditions -/
-
-def Slice.disjB (x y : Slice) : Bool :=
-  match x.region, y.region with
-  | .chunk c, .chunk c' => decide (c ≠ c') || decide (y.len = 0) || decide (x.off + x.len ≤ y.off) || decide (y.off + y.len ≤ x.off)
-  | _, _ => true
-
-theorem Slice.disjB_sound {x y : Slice} (h : x.disjB y = true) : x.Disj y := by
-  intro c hx hy
-  simp only [Slice.disjB, hx, hy, ne_eq, not_true_eq_false, decide_false, Bool.false_or, Bool.or_eq_true,
-    decide_eq_true_eq] at h
-  rcases h with (h | h) | h
-  · exact Or.inl h
-  · exact Or.inr (Or.inl h)
-  · exact Or.inr (Or.inr h)
-
-def World.pushFreshB (w : World) : WOp → Bool
-  | .pushASlice i si =>
-    match w.iov i, w.aslice si with
-    | some v, some a => v.slices.all (fun x => x.disjB a.slice)
-    | _, _ => true
-  | _ => true
-
-theorem World.pushFreshB_sound {w : World} {op : WOp} (h : w.pushFreshB op = true) : PushFresh w op := by
-  intro i si v a hop hv ha x hx
-  subst hop
-  simp only [World.pushFreshB, hv, ha, List.all_eq_true] at h
-  exact Slice.disjB_sound (h x hx)
+/-! ### Executable checker for the side condition -/
 
 def rangeDisjB (k a n : Nat) (s : Slice) : Bool :=
   match s.region with
@@ -229,11 +202,11 @@ theorem World.fillPrivateB_sound {w : World} {op : WOp} (h : w.fillPrivateB op =
   · intro vX vY key info k a n _ hvY
     rw [iov_none_of_ge w j (by omega)] at hvY; cases hvY
 
-/-- Run the history on the model and check both side conditions before every step. -/
+/-- Run the history on the model and check the side condition before every step. -/
 def World.okRunB (w : World) : List WOp → Bool
   | [] => true
   | op :: ops =>
-    w.pushFreshB op && w.fillPrivateB op &&
+    w.fillPrivateB op &&
       match w.step op with
       | some w' => w'.okRunB ops
       | none => true
@@ -245,8 +218,8 @@ theorem okRunB_sound : ∀ (ops : List WOp) (g : GW), g.w.okRunB ops = true → 
   | cons op ops ih =>
     intro g h
     simp only [World.okRunB, Bool.and_eq_true] at h
-    obtain ⟨⟨h1, h2⟩, h3⟩ := h
-    refine ⟨⟨World.pushFreshB_sound h1, World.fillPrivateB_sound h2⟩, ?_⟩
+    obtain ⟨h2, h3⟩ := h
+    refine ⟨World.fillPrivateB_sound h2, ?_⟩
     intro g' r hs
     have hw := (GW.step_some hs).1
     rw [hw] at h3
